@@ -1,3 +1,65 @@
-(* C02 — placeholder until the theorems are proved: see below. *)
-From Coq Require Import List ZArith NArith Bool Arith.
-From PK Require Import PyList Episodes Stage.
+(* C02 — Lifted state block never depends on the exogenous input.
+   Only statements, closed by [exact]; proofs live in StageFacts.v / NonInterf.v. *)
+From Coq Require Import List ZArith NArith Bool Arith Lia.
+From PK Require Import PyList ListFacts Episodes EpisodesFacts Stage StageEqns StageSpec StageFacts EpisodeSem NonInterf ZInst.
+Import ListNotations.
+Close Scope Z_scope.
+Open Scope nat_scope.
+
+(* the lifted features are partitioned exactly as declared: n_states_out + n_inputs_out
+   columns and nothing else (the episode label is carried separately by the model) *)
+Theorem C02_partition : forall (T : Type) (O : ops T) (s : stage T) (ep : bool) (d : dims) (X : dmat T),
+  wf s d = true -> dwid (fst d + snd d) X ->
+  forall r, In r (rows (transform O s ep d X)) -> length r = fst (sdims s d) + snd (sdims s d).
+Proof. intros T O s ep d X Hwf HX. exact (transform_width O s ep d Hwf HX). Qed.
+Print Assumptions C02_partition.
+
+(* For EVERY stage tree (all kinds, any nesting), dims and pair of data matrices that
+   have the same labels and the same state columns row by row — the input columns being
+   arbitrary — every episode of the two lifted matrices has the same lifted-state block.
+   Hypotheses: wf (PolynomialFeatures.powers_ well-formed, split branches pure), the
+   declared input width, every episode at least min_samples long. *)
+Theorem C02_noninterference : forall (T : Type) (O : ops T) (s : stage T) (d : dims) (X X' : dmat T),
+  wf s d = true -> dwid (fst d + snd d) X -> dwid (fst d + snd d) X' ->
+  same_state (fst d) X X' -> valid (min_samples s) X ->
+  forall i, scols (fst (sdims s d)) (rows_of i (transform O s true d X))
+          = scols (fst (sdims s d)) (rows_of i (transform O s true d X')).
+Proof. intros T O s d X X'. exact (@transform_noninterference T O s d X X'). Qed.
+Print Assumptions C02_noninterference.
+
+Theorem C02_noninterference_single : forall (T : Type) (O : ops T) (s : stage T) (d : dims) (X X' : dmat T),
+  wf s d = true -> dwid (fst d + snd d) X -> dwid (fst d + snd d) X' ->
+  length X = length X' -> scols (fst d) (rows X) = scols (fst d) (rows X') ->
+  scols (fst (sdims s d)) (rows (transform O s false d X))
+  = scols (fst (sdims s d)) (rows (transform O s false d X')).
+Proof. intros T O s d X X'. exact (@transform_noninterference_single T O s d X X'). Qed.
+Print Assumptions C02_noninterference_single.
+
+(* per-episode form on the specification, no validity premise at all *)
+Theorem C02_spec : forall (T : Type) (O : ops T) (s : stage T) (d : dims) (E E' : list (list T)),
+  wf s d = true -> wid (fst d + snd d) E -> wid (fst d + snd d) E' ->
+  length E = length E' -> scols (fst d) E = scols (fst d) E' ->
+  scols (fst (sdims s d)) (tf_ep O s d E) = scols (fst (sdims s d)) (tf_ep O s d E').
+Proof. intros T O s. exact (tf_ep_noninterference O s). Qed.
+Print Assumptions C02_spec.
+
+(* non-vacuity: polynomial(2) after a delay with different state/input delays, inside a
+   KoopmanPipeline; the two matrices differ in every input cell *)
+Definition c02_stage : zstage :=
+  Pipe (CCons (Leaf (LDelay Z 1 2))
+       (CCons (Leaf (LPoly Z [[1;0;0;0;0];[0;1;0;0;0];[0;0;1;0;0];[0;0;0;1;0];[0;0;0;0;1];
+                              [2;0;0;0;0];[1;1;0;0;0];[1;0;1;0;0];[1;0;0;1;0];[1;0;0;0;1];
+                              [0;2;0;0;0];[0;1;1;0;0];[0;1;0;1;0];[0;1;0;0;1];[0;0;2;0;0];
+                              [0;0;1;1;0];[0;0;1;0;1];[0;0;0;2;0];[0;0;0;1;1];[0;0;0;0;2]])) (CNil Z))).
+Definition c02_X : dmat Z := [(3%N,[1;7]); (3%N,[2;8]); (3%N,[3;9]); (3%N,[4;6])]%Z.
+Definition c02_X' : dmat Z := [(3%N,[1;-5]); (3%N,[2;0]); (3%N,[3;11]); (3%N,[4;2])]%Z.
+Example C02_example :
+  wf c02_stage (1, 1) = true /\ same_state 1 c02_X c02_X' /\ valid (min_samples c02_stage) c02_X
+  /\ sdims c02_stage (1, 1) = (5, 15)
+  /\ scols 5 (rows_of 3%N (ztransform c02_stage true (1, 1) c02_X)) = [[3;2;9;6;4]; [4;3;16;12;9]]%Z
+  /\ rows_of 3%N (ztransform c02_stage true (1, 1) c02_X) <> rows_of 3%N (ztransform c02_stage true (1, 1) c02_X').
+Proof.
+  split; [vm_compute; reflexivity|]. split; [vm_compute; reflexivity|]. split.
+  - intros i Hi. cbn in Hi. repeat (destruct Hi as [<-|Hi]; [vm_compute; lia|]). destruct Hi.
+  - split; [vm_compute; reflexivity|]. split; [vm_compute; reflexivity|]. vm_compute. discriminate.
+Qed.
